@@ -34,6 +34,7 @@ type World struct {
 	cg       *callgraph.Graph
 	locks    *LockInfo
 	mayLocks *LockInfo
+	loadNotes []string
 	thorough bool // thorough tier: who-may-call inventories are cross-checked against the VTA call graph
 	vtaExtra int
 }
@@ -51,25 +52,67 @@ func loadWorld(repo string) (*World, error) {
 		Tests: false,
 		Env:   append(os.Environ(), "GOFLAGS=-mod=mod", "GOPROXY=off", "GOSUMDB=off", "GOTOOLCHAIN=local", "CGO_ENABLED=0", "GOWORK=off"),
 	}
-	pkgs, err := packages.Load(cfg, "./...")
-	if err != nil {
-		return nil, fmt.Errorf("packages.Load: %w", err)
-	}
-	if len(pkgs) == 0 {
-		return nil, fmt.Errorf("no packages loaded from %s", repo)
-	}
-	var errs []string
-	packages.Visit(pkgs, nil, func(p *packages.Package) {
-		for _, e := range p.Errors {
-			errs = append(errs, e.Error())
+	loadOnce := func(overlay map[string][]byte) ([]*packages.Package, error) {
+		c2 := *cfg
+		c2.Overlay = overlay
+		pkgs, err := packages.Load(&c2, "./...")
+		if err != nil {
+			return nil, fmt.Errorf("packages.Load: %w", err)
 		}
-	})
-	if len(errs) > 0 {
-		return nil, fmt.Errorf("load/type errors:\n  %s", strings.Join(errs, "\n  "))
+		if len(pkgs) == 0 {
+			return nil, fmt.Errorf("no packages loaded from %s", repo)
+		}
+		var errs []string
+		packages.Visit(pkgs, nil, func(p *packages.Package) {
+			for _, e := range p.Errors {
+				errs = append(errs, e.Error())
+			}
+		})
+		if len(errs) > 0 {
+			return nil, fmt.Errorf("load/type errors:\n  %s", strings.Join(errs, "\n  "))
+		}
+		return pkgs, nil
+	}
+	pkgs, err := loadOnce(nil)
+	if err != nil {
+		return nil, err
+	}
+	if *writeBaselineFlag != "" {
+		if err := writeBaseline(pkgs, *writeBaselineFlag); err != nil {
+			return nil, err
+		}
+	}
+	// see through helper functions that do not exist in the reference tree (inline.go)
+	var loadNotes []string
+	overlayAll := map[string][]byte{}
+	for round := 0; round < 5 && os.Getenv("KPVERIFY_NO_INLINE") == ""; round++ {
+		overlay, notes := flattenHelpers(pkgs)
+		loadNotes = append(loadNotes, notes...)
+		if overlay == nil {
+			break
+		}
+		for k, v := range overlay {
+			overlayAll[k] = v
+		}
+		flat, ferr := loadOnce(overlayAll)
+		if ferr != nil {
+			loadNotes = append(loadNotes, "helper inlining abandoned (rewritten program does not type-check; analysing the program as written): "+firstLine(ferr.Error()))
+			if os.Getenv("KPVERIFY_DEBUG_INLINE") != "" {
+				for k, v := range overlayAll {
+					os.WriteFile("/tmp/kpinline_"+strings.ReplaceAll(strings.TrimPrefix(k, repo+"/"), "/", "_"), v, 0o644)
+				}
+				fmt.Fprintln(os.Stderr, ferr)
+			}
+			if pkgs, err = loadOnce(nil); err != nil {
+				return nil, err
+			}
+			break
+		}
+		pkgs = flat
 	}
 	prog, spkgs := ssautil.AllPackages(pkgs, ssa.InstantiateGenerics)
 	prog.Build()
-	w := &World{repo: repo, fset: pkgs[0].Fset, pkgs: pkgs, prog: prog, ssaPkgs: map[string]*ssa.Package{}}
+	w := &World{repo: repo, fset: pkgs[0].Fset, pkgs: pkgs, prog: prog, ssaPkgs: map[string]*ssa.Package{}, loadNotes: loadNotes}
 	for i, p := range pkgs {
 		if spkgs[i] == nil {
 			return nil, fmt.Errorf("no SSA for %s", p.PkgPath)
@@ -159,4 +202,15 @@ func (w *World) pos(p token.Pos) string {
 	}
 	pp := w.fset.Position(p)
 	return fmt.Sprintf("%s:%d", strings.TrimPrefix(pp.Filename, w.repo+"/"), pp.Line)
+}
+
+func firstLine(s string) string {
+	if i := strings.Index(s, "\n  "); i >= 0 {
+		rest := s[i+3:]
+		if j := strings.Index(rest, "\n"); j >= 0 {
+			rest = rest[:j]
+		}
+		return rest
+	}
+	return s
 }
